@@ -280,15 +280,22 @@ def c20(run):
                                      event=hrec["ev"][0], history=hrec["ev"]))
     pipeline.log("lin Lin_BloomConc: %d rounds, %d linearizable, %d states" % (nlin, len(lin & set(json.loads(l)["h"] for l in open(b))), r["distinct"]))
     dynamic_bad = len(run.verdicts) > 0
+    static_note = []
     if static and not dynamic_bad:
-        raise pipeline.Infra("the extracted lock-discipline model violates %s (K=%d) but no race / non-linearizable round / lost insertion was observed on the real code in this run: unconfirmed, no verdict" % (static[0][1], static[0][0]))
+        # the extracted lock-discipline model is an abstraction (it knows Lock / RLock pairs, not atomics or TryLock):
+        # a violation of the MODEL that the real code does not confirm in this run is reported as a note, not a verdict
+        print("STATIC-MODEL (unconfirmed, no verdict): %s (K=%d) on the model extracted from bloom/filter.go; no race, "
+              "non-linearizable round, lost insertion or deadlock was observed on the real code in this run" % (static[0][1], static[0][0]))
+        static_note = static
+        static = []
     for k, inv, out in static:
         print("STATIC-MODEL: %s (K=%d) on the model extracted from bloom/filter.go" % (inv, k))
     return finish(run, assumptions=BLOOM_ASSUME + [
         "data-race freedom is decided on the lock-discipline model extracted from bloom/filter.go (all interleavings, K=2 and 3) and observed with the Go race detector; the Go memory model itself is not specified",
-        "a static-model violation alone is not reported as a violation unless the real code shows a race, a non-linearizable round or a lost insertion in the same run",
+        "a static-model violation alone is not a verdict: it is printed as STATIC-MODEL (unconfirmed) and the check decides by what the real code showed in this run",
         "tickets come from one atomic counter taken immediately before / after each call"],
-        extra_cov={"race_detector_reports": reports, "static_model_violations": len(static), "linearization_rounds": nlin,
+        extra_cov={"race_detector_reports": reports, "static_model_violations": len(static), "static_model_violations_unconfirmed": len(static_note),
+                   "linearization_rounds": nlin,
                    "static_model": "extracted from bloom/filter.go" if static_applies else "not applicable to this source shape (skipped)"})
 
 
